@@ -153,6 +153,11 @@ type c08Spec struct {
 	// switches and their mailboxes / circuit maps stay up).
 	// stall: a cut WITHOUT restart (the peer withholds its messages on that
 	// channel from this point on); a later flap of the channel heals it.
+	// lateLinks: after a restart Bob's switch starts before his links exist.
+	lateLinks bool
+	// postFlaps: when everything has settled down after the last restart, both
+	// channels reconnect once more (second bind of each mailbox).
+	postFlaps  bool
 	stallPred  *c08Pred
 	stallScope string
 	flapPred   []*c08Pred
@@ -301,6 +306,7 @@ type c08Run struct {
 	crashes    int
 	flaps      int
 	flapSig    chan string
+	flapping   map[string]bool // channel whose two links are being re-created: hold its messages
 	flapPlan   int
 	flapArmed  *c08Pred
 	flapCount  int
@@ -394,6 +400,18 @@ func (r *c08Run) hook(at string) messageInterceptor {
 			return false, nil
 		}
 		ch := r.chanName(cid)
+
+		// a channel whose links are being re-created: hold the message until both
+		// links are registered (a real peer only talks on an established connection)
+		for i := 0; i < 25000; i++ {
+			r.mu.Lock()
+			hold := r.flapping[ch]
+			r.mu.Unlock()
+			if !hold {
+				break
+			}
+			time.Sleep(200 * time.Microsecond)
+		}
 
 		// delay (outside the lock; delays this node's whole inbound queue,
 		// which preserves per-connection order).
@@ -585,13 +603,26 @@ func (r *c08Run) buildNetwork(cc *clusterChannels) error {
 			a.registry, b.registry, c.registry = keep[0], keep[1], keep[2]
 		}
 	}
-	n := newThreeHopNetwork(r.tb, cc.aliceToBob, cc.bobToAlice, cc.bobToCarol, cc.carolToBob,
-		testStartingHeight, opt)
+	var n *threeHopNetwork
+	bobStarted := false
+	if r.epoch > 0 && r.spec.lateLinks {
+		// Bob's switch comes up (and replays its forwarding packages) BEFORE his
+		// links are registered, as when the peers connect late after a node
+		// restart: responses for circuits whose incoming link is not there yet
+		// are parked by the mail orchestrator as "unclaimed".
+		n = r.newNetworkBobFirst(cc, opt)
+		bobStarted = true
+	} else {
+		n = newThreeHopNetwork(r.tb, cc.aliceToBob, cc.bobToAlice, cc.bobToCarol, cc.carolToBob,
+			testStartingHeight, opt)
+	}
 	if keep[0] == nil {
 		r.regs = [3]*mockInvoiceRegistry{n.aliceServer.registry, n.bobServer.registry, n.carolServer.registry}
 	}
 	n.aliceServer.intersect(r.hook("alice"))
-	n.bobServer.intersect(r.hook("bob"))
+	if !bobStarted {
+		n.bobServer.intersect(r.hook("bob"))
+	}
 	n.carolServer.intersect(r.hook("carol"))
 	epoch := r.epoch
 	onFail := func(id lnwire.ChannelID, _ lnwire.ShortChannelID, e LinkFailureError) {
@@ -629,6 +660,9 @@ func (r *c08Run) buildNetwork(cc *clusterChannels) error {
 		r.emit("note bob circuit map after restart: pending=%d open=%d", cm.NumPending(), cm.NumOpen())
 	}
 	for _, s := range []*mockServer{n.aliceServer, n.bobServer, n.carolServer} {
+		if s == n.bobServer && bobStarted {
+			continue
+		}
 		if err := s.Start(); err != nil {
 			return err
 		}
@@ -651,6 +685,53 @@ func (r *c08Run) buildNetwork(cc *clusterChannels) error {
 		time.Sleep(10 * time.Millisecond)
 	}
 	return fmt.Errorf("links not eligible")
+}
+
+// newNetworkBobFirst is newThreeHopNetwork with one difference: Bob's server (and
+// switch) is started before Bob's two links are created.
+func (r *c08Run) newNetworkBobFirst(cc *clusterChannels, opt serverOption) *threeHopNetwork {
+	t := r.tb
+	aliceDb := testChannelStateDB(t, cc.aliceToBob).GetParentDB()
+	bobDb := testChannelStateDB(t, cc.bobToAlice).GetParentDB()
+	carolDb := testChannelStateDB(t, cc.carolToBob).GetParentDB()
+	hn := newHopNetwork()
+	mk := func(name string, db *channeldb.DB) *mockServer {
+		s, err := newMockServer(t, name, testStartingHeight, db, hn.defaultDelta)
+		if err != nil {
+			t.Fatalf("mock server: %v", err)
+		}
+		return s
+	}
+	aliceServer, bobServer, carolServer := mk("alice", aliceDb), mk("bob", bobDb), mk("carol", carolDb)
+	opt(aliceServer, bobServer, carolServer)
+	aliceDec, bobDec, carolDec := newMockIteratorDecoder(), newMockIteratorDecoder(), newMockIteratorDecoder()
+	// hooks must be installed before a server's loop runs
+	bobServer.intersect(r.hook("bob"))
+	if err := bobServer.Start(); err != nil {
+		t.Fatalf("bob start: %v", err)
+	}
+	time.Sleep(30 * time.Millisecond)
+	r.emit("note bob switch started before his links: unclaimed=%d", r.unclaimed(bobServer.htlcSwitch))
+	link := func(s, p *mockServer, c *lnwallet.LightningChannel, d *mockIteratorDecoder) *channelLink {
+		l, err := hn.createChannelLink(s, p, c, d)
+		if err != nil {
+			t.Fatalf("link: %v", err)
+		}
+		return l.(*channelLink)
+	}
+	n := &threeHopNetwork{
+		aliceServer: aliceServer, aliceOnionDecoder: aliceDec,
+		bobServer: bobServer, bobOnionDecoder: bobDec,
+		carolServer: carolServer, carolOnionDecoder: carolDec,
+		hopNetwork: *hn,
+	}
+	// Bob's links first: his server loop is already running and would discard a
+	// channel_reestablish for a link that does not exist yet.
+	n.firstBobChannelLink = link(bobServer, aliceServer, cc.bobToAlice, bobDec)
+	n.secondBobChannelLink = link(bobServer, carolServer, cc.bobToCarol, bobDec)
+	n.aliceChannelLink = link(aliceServer, bobServer, cc.aliceToBob, aliceDec)
+	n.carolChannelLink = link(carolServer, bobServer, cc.carolToBob, carolDec)
+	return n
 }
 
 func (r *c08Run) tuneLink(l *channelLink, onFail func(lnwire.ChannelID, lnwire.ShortChannelID, LinkFailureError)) {
@@ -706,8 +787,17 @@ func (r *c08Run) flap(ch string) error {
 	r.mu.Lock()
 	r.lines = append(r.lines, "x flap ch="+ch)
 	r.cut[ch] = false
+	r.flapping[ch] = true
 	r.flaps++
+	if r.spec.stallPred != nil && r.predArmed == r.spec.stallPred && r.spec.stallScope == ch {
+		r.predArmed = nil // the stall would have no healing reconnect any more
+	}
 	r.mu.Unlock()
+	defer func() {
+		r.mu.Lock()
+		r.flapping[ch] = false
+		r.mu.Unlock()
+	}()
 	cA, err := c08Restore(r.st, r.dbs[iA], r.privs[iA], r.outpoints[iA])
 	if err != nil {
 		return err
@@ -745,6 +835,9 @@ func (r *c08Run) flap(ch string) error {
 	}
 	r.tuneLink(lA.(*channelLink), onFail)
 	r.tuneLink(lB.(*channelLink), onFail)
+	r.mu.Lock()
+	r.flapping[ch] = false
+	r.mu.Unlock()
 	if ch == "AB" {
 		n.aliceChannelLink, n.firstBobChannelLink = lA.(*channelLink), lB.(*channelLink)
 	} else {
@@ -1077,6 +1170,19 @@ func (r *c08Run) mailboxPkts(s *Switch) int {
 	return n
 }
 
+// unclaimed counts the packets Bob's mail orchestrator has parked for links
+// that were not registered when the packet arrived.
+func (r *c08Run) unclaimed(s *Switch) int {
+	o := s.mailOrchestrator
+	o.mu.RLock()
+	defer o.mu.RUnlock()
+	n := 0
+	for _, l := range o.unclaimedPackets {
+		n += len(l)
+	}
+	return n
+}
+
 func (r *c08Run) queuesEmpty() bool {
 	return len(r.n.aliceServer.messages) == 0 && len(r.n.bobServer.messages) == 0 && len(r.n.carolServer.messages) == 0
 }
@@ -1161,8 +1267,8 @@ func (r *c08Run) snapshot(tag string) {
 		name string
 		s    *Switch
 	}{{"alice", r.n.aliceServer.htlcSwitch}, {"bob", r.n.bobServer.htlcSwitch}, {"carol", r.n.carolServer.htlcSwitch}} {
-		r.emit("q circ node=%s pending=%d open=%d mailbox=%d", x.name, x.s.circuits.NumPending(),
-			x.s.circuits.NumOpen(), r.mailboxPkts(x.s))
+		r.emit("q circ node=%s pending=%d open=%d mailbox=%d unclaimed=%d", x.name, x.s.circuits.NumPending(),
+			x.s.circuits.NumOpen(), r.mailboxPkts(x.s), r.unclaimed(x.s))
 	}
 	if cm, ok := r.n.bobServer.htlcSwitch.circuits.(*circuitMap); ok {
 		var mem, disk []string
@@ -1387,9 +1493,30 @@ func (r *c08Run) run() (status string) {
 			}
 		}
 	}
-	if spec.stallPred != nil {
-		// a stalled connection must always heal (the peer comes back), even if
-		// the planned flap never triggered
+	if spec.postFlaps && r.epoch > 0 {
+		pre := r.waitQuiescent(0)
+		r.emit("note pre-postflap quiescence: %s", pre)
+		for _, ch := range []string{"AB", "BC"} {
+			if err := r.flap(ch); err != nil {
+				r.emit("note post flap: %s", c08clean(err.Error()))
+				return "restart_error"
+			}
+			time.Sleep(150 * time.Millisecond)
+		}
+	}
+	// No new fault may start from here on: a cut that triggered now would never be
+	// followed by the reconnect that makes the peers retransmit.
+	r.mu.Lock()
+	r.predArmed, r.cutArmed, r.flapArmed = nil, -1, nil
+	r.mu.Unlock()
+	if r.crashDB != nil {
+		r.crashDB.wmu.Lock()
+		r.crashDB.nth, r.crashDB.flapNth = -1, 0
+		r.crashDB.wmu.Unlock()
+	}
+	{
+		// a connection that is still cut (stalled peer whose planned flap never
+		// triggered) must always heal before quiescence is judged
 		for _, ch := range []string{"AB", "BC"} {
 			r.mu.Lock()
 			cut := r.cut[ch]
@@ -1511,6 +1638,7 @@ func c08Script(seed int64, idx int) *c08Spec {
 		// downstream fail: crash when Bob revoked but did not yet sign / relay.
 		s.pays = []*c08Pay{mk(dir, c08KUnknown, amt)}
 		two(&c08Pred{at: "bob", ch: second, t: "fail", nth: 1}, &c08Pred{at: snd, ch: first, t: "fail", nth: 1})
+		s.lateLinks, s.postFlaps = true, true
 	case 5:
 		// downstream fail relayed upstream; Bob dies right after persisting
 		// the commitment that carries the upstream fail (4th signature of the
@@ -1539,6 +1667,7 @@ func c08Script(seed int64, idx int) *c08Spec {
 		s.cutAt, s.cutScope, s.cutPred = []int{-3}, []string{"ALL"}, []*c08Pred{nil}
 		s.crashLabel, s.crashNth = []string{"sign"}, []int{3 + rng.Intn(3)}
 		s.restartT = []time.Duration{40 * time.Millisecond}
+		s.lateLinks, s.postFlaps = true, true
 	case 9:
 		// link flap of the outgoing channel right when the peer's
 		// revoke_and_ack that completes a downstream fail reaches Bob.
@@ -1587,6 +1716,51 @@ func c08Script(seed int64, idx int) *c08Spec {
 		s.flapPred = []*c08Pred{{at: "bob", ch: second, t: fl, nth: 1}}
 		s.flapCh = []string{first}
 		s.flapWait = []time.Duration{time.Duration(120+rng.Intn(100)) * time.Millisecond}
+	case 14:
+		// bidirectional traffic with colliding circuit keys and a BOUNCED add:
+		// two payments Alice->Carol are forwarded as outgoing htlcs 0,1 on B<->C
+		// and resolved by Carol; then Carol sends two payments to Alice at the
+		// same instant (peer-assigned incoming ids 0,1 on B<->C: the same circuit
+		// keys as the old OUTGOING htlcs), each more than half of Bob's balance on
+		// A<->B: the switch's bandwidth check passes for both before the outgoing
+		// link has added the first, so the link's AddHTLC rejects the second and
+		// the add is bounced through mailBox.FailAdd.
+		s.capSat, s.capSat2 = 300000, 3000000
+		mkn := func(n int, d int, k string, a lnwire.MilliSatoshi, gap time.Duration) *c08Pay {
+			p := mk(d, k, a)
+			p.n, p.pid, p.gap = n, uint64(n+1), gap
+			return p
+		}
+		big := lnwire.MilliSatoshi(160000+rng.Intn(30000)) * 1000
+		s.pays = []*c08Pay{
+			mkn(0, 0, c08KValid, 4000000, 0),
+			mkn(1, 0, c08KValid, 7000000, 0),
+			mkn(2, 1, c08KValid, big, 600*time.Millisecond),
+			mkn(3, 1, c08KValid, big+1000, 0),
+			mkn(4, 1, c08KValid, big+2000, 0),
+		}
+		if dir == 1 {
+			// variant: the bounced adds race with a link flap of the outgoing channel
+			s.flapPred = []*c08Pred{{at: "bob", ch: "BC", t: "add", nth: 1}}
+			s.flapCh = []string{"AB"}
+			s.flapWait = []time.Duration{time.Duration(rng.Intn(30)) * time.Millisecond}
+		}
+	case 15:
+		// Bob dies right after ReceiveRevocation made the downstream response
+		// durable in the outgoing channel's forwarding package (3rd revocation he
+		// persists). After the restart his switch comes up BEFORE his links: the
+		// replayed response finds no mailbox for the incoming link and is parked
+		// as "unclaimed"; the links are added (first bind), everything completes,
+		// then both channels reconnect once more (second bind).
+		k := c08KUnknown
+		if rng.Intn(2) == 0 {
+			k = c08KValid
+		}
+		s.pays = []*c08Pay{mk(dir, k, amt)}
+		s.cutAt, s.cutScope, s.cutPred = []int{-3}, []string{"ALL"}, []*c08Pred{nil}
+		s.crashLabel, s.crashNth = []string{"revrecv"}, []int{3}
+		s.restartT = []time.Duration{40 * time.Millisecond}
+		s.lateLinks, s.postFlaps = true, true
 	default:
 		// a forwarding package whose FIRST add is already acked while a LATER
 		// add has only a half-open circuit at the crash: Z exhausts Bob's
@@ -1614,7 +1788,7 @@ func c08Script(seed int64, idx int) *c08Spec {
 	return s
 }
 
-const c08NumScripts = 28
+const c08NumScripts = 32
 
 func c08GenSpec(seed int64, idx int, tier string) *c08Spec {
 	if idx < c08NumScripts {
@@ -1679,6 +1853,8 @@ func c08GenSpec(seed int64, idx int, tier string) *c08Spec {
 			s.delayProb = 0.1
 			s.delayMax = 15 * time.Millisecond
 		}
+		s.lateLinks = rng.Intn(2) == 0
+		s.postFlaps = rng.Intn(3) == 0
 	case "flap":
 		nf := 1 + rng.Intn(3)
 		for i := 0; i < nf; i++ {
@@ -1815,7 +1991,7 @@ func TestVerifC08(t *testing.T) {
 						st: st, tb: &c08TB{TB: st}, spec: spec,
 						rng: rand.New(rand.NewSource(seed ^ int64(i)<<20 ^ 0x5eed)),
 						cut: map[string]bool{}, cutArmed: -1, cutSig: make(chan struct{}, 4),
-						flapSig:  make(chan string, 4),
+						flapSig: make(chan string, 4), flapping: map[string]bool{},
 						lastWire: time.Now(),
 					}
 					done := make(chan struct{})
